@@ -101,6 +101,8 @@ claim("C11",
       "per host never shrink), with the one-step lemmas; C11_whole_game (Proofs/CoordViews.v, Proofs/Game.v: in every reachable state of "
       "the coordinator model running on the world model - joins, actions, departures, faults, rewards, resets in any interleaving - "
       "every agent's stored view is well formed and anchored in the current world, given well-formed anchored start positions), "
+      "C11_whole_game_mono (Proofs/CoordViewStep.v: a label changes a stored view only by the world's answer to the agent's own "
+      "action or by the reset; hence within an episode every agent's view only grows, whatever happens in between), "
       "C11_lifting (the general principle: any world/view relation kept by the world model is kept by the whole game). 'A returned view is never modified later' is a heap-aliasing statement the "
       "value-semantic model cannot express: it is decided by deep snapshots of every GameState returned by register/step/reset "
       "re-compared after every later step (partial, labelled so).", W_NOTE, W_TECH, "DESIGN.md section 7, C11")
